@@ -27,7 +27,7 @@ ASSUMPTIONS = [
     "an exception from is_valid counts as 'not reported valid' here and is decided by C14",
 ]
 WATCHDOG_S = {"quick": 900, "thorough": 7200}
-N_BASE = {"quick": 90, "thorough": 5000}
+N_BASE = {"quick": 90, "thorough": 1500}
 
 
 def plan(tier: str, seed: int) -> list[dict]:
